@@ -42,6 +42,7 @@ let rec repeat_pat v k i = if i >= k then [] else n_of_int ((v + i) land 255) ::
 
 let run () =
   let cases = ref 0 and steps = ref 0 and bad = ref 0 and nontriv = ref 0 in
+  let printed : (string, int) Hashtbl.t = Hashtbl.create 8 in
   let seen = Hashtbl.create 4096 and dist = Hashtbl.create 64 in
   let bump k = Hashtbl.replace dist k (1 + try Hashtbl.find dist k with Not_found -> 0) in
   let samples = ref 0 in
@@ -51,8 +52,11 @@ let run () =
       incr cases;
       let key = tree ^ " " ^ String.concat " " (List.map (fun o -> fst (split_on_first '=' o)) ops) in
       let fresh = not (Hashtbl.mem seen key) in if fresh then Hashtbl.add seen key ();
-      let reported = ref false in
-      let report kind detail = incr bad; if not !reported && !bad <= 60 then (reported := true; Printf.printf "MISMATCH %s %s :: %s\n" kind detail line) in
+      (* one line per case and PROPERTY (first three characters of the kind), at most 60 lines per property *)
+      let reported : (string, unit) Hashtbl.t = Hashtbl.create 4 in
+      let report kind detail = incr bad; let pre = String.sub kind 0 (min 3 (String.length kind)) in
+        let c = (try Hashtbl.find printed pre with Not_found -> 0) in
+        if not (Hashtbl.mem reported pre) && c < 60 then (Hashtbl.replace reported pre (); Hashtbl.replace printed pre (c + 1); Printf.printf "MISMATCH %s %s :: %s\n" kind detail line) in
       let nontrivial = ref false in
       (try
         let (_, idesc0) = split_on_first '@' initob in
@@ -109,7 +113,7 @@ let run () =
                | _ -> (Some ("unknown-op", !st), Some [])) in
             let ist = (try Some (parse_tgt idesc) with Failure "GUARD" -> report "c11-guard" ("bytes outside the writable region were modified: " ^ idesc); None | _ -> None) in
             (match ist with
-             | None -> if not !reported then report "model-state" ("unparsed state " ^ idesc); stop := true
+             | None -> if not (Hashtbl.mem reported "mod") then report "model-state" ("unparsed state " ^ idesc); stop := true
              | Some ib ->
                (* ---- direct laws ---- *)
                let fits = (match accepted with Some bs -> N.leb (n_of_int (List.length bs)) room | None -> false) in
